@@ -6,6 +6,7 @@ use super::super::{
     meta_subscriber::MoveSubscriber,
     meta_container::MoveContainer,
 };
+#[cfg(not(feature = "verif"))]
 use std::{
     fmt::Debug,
     ptr,
@@ -18,6 +19,10 @@ use std::{
     cell::UnsafeCell,
     mem::ManuallyDrop,
 };
+#[cfg(feature = "verif")]
+use std::{fmt::Debug, ptr, sync::atomic::Ordering::Relaxed, pin::Pin, num::NonZeroU32, cell::UnsafeCell, mem::ManuallyDrop};
+#[cfg(feature = "verif")]
+use crate::verif::AtomicBool;
 
 
 /// Basis for multiple producer / multiple consumer queues using a quick-and-dirty (but fast)
@@ -54,6 +59,16 @@ FullSyncMove<SlotType, BUFFER_SIZE> {
         // if !BUFFER_SIZE.is_power_of_two() {
         //     panic!("FullSyncMeta: BUFFER_SIZE must be a power of 2, but {BUFFER_SIZE} was provided.");
         // }
+        #[cfg(feature = "verif")]
+        if crate::verif::sequence_origin() != 0 {
+            let origin = crate::verif::sequence_origin();
+            return Self {
+                head:              UnsafeCell::new(origin),
+                tail:              UnsafeCell::new(origin),
+                concurrency_guard: AtomicBool::new(false),
+                buffer:            UnsafeCell::new(Box::pin([0; BUFFER_SIZE].map(|_| ManuallyDrop::new(slot_initializer())))),
+            }
+        }
         Self {
             head:              UnsafeCell::new(0),
             tail:              UnsafeCell::new(0),
@@ -278,6 +293,23 @@ FullSyncMove<SlotType, BUFFER_SIZE> {
             let buffer = &*self.buffer.get();
             buffer.get_unchecked(slot_index as usize % BUFFER_SIZE)
         }
+    }
+}
+
+/// verification hooks: lets the external harness name the shared cells and snapshot the counters
+#[cfg(feature = "verif")]
+impl<SlotType:          Debug + Default,
+     const BUFFER_SIZE: usize>
+FullSyncMove<SlotType, BUFFER_SIZE> {
+    /// addresses of (head, tail, concurrency_guard, buffer[0]) and the size of a slot
+    pub fn verif_addrs(&self) -> ([usize; 4], usize) {
+        let buffer0 = unsafe { (&*self.buffer.get()).as_ptr() as usize };
+        ([self.head.get() as usize, self.tail.get() as usize, &self.concurrency_guard as *const AtomicBool as usize, buffer0],
+         std::mem::size_of::<SlotType>())
+    }
+    /// (head, tail, locked?), read without scheduling points
+    pub fn verif_counters(&self) -> [u32; 3] {
+        unsafe { [*self.head.get(), *self.tail.get(), self.concurrency_guard.raw() as u32] }
     }
 }
 
